@@ -1534,6 +1534,57 @@ def store13(ctx) -> List[Ob]:
             n_sites += 1
             key = A.alpha_key(A.enclosing_stmt(n) or n)
             out.append(bad("STORE-13", fn.qualname, key, ctx.where(fn, n), f"{A.unparse(tgt)[:40]} of a block is mutated in place ({how}): the graph changes as a side effect (a second code generation / walk sees different blocks)"))
+    # the same through an alias: a function that hands a payload container out as it is (`return block.tree`, or the
+    # result of such a function) makes every local bound to its result a possible alias of the payload
+    leaking: Set[str] = set()
+    rets_of = {}
+    for fn in prog.functions:
+        rets_of[fn] = [r.value for r in A.walk_no_nested(fn.node) if isinstance(r, ast.Return) and r.value is not None]
+    changed = True
+    while changed:
+        changed = False
+        for fn, rets in rets_of.items():
+            if fn.name in leaking:
+                continue
+            for v in rets:
+                if isinstance(v, ast.Call) and isinstance(v.func, ast.Name) and v.func.id == "cast" and len(v.args) == 2:
+                    v = v.args[1]
+                hit = isinstance(v, ast.Attribute) and v.attr in PAYLOAD_FIELDS - {"_jump_targets", "backedges"}
+                if isinstance(v, ast.Call):
+                    cn = v.func.attr if isinstance(v.func, ast.Attribute) else (v.func.id if isinstance(v.func, ast.Name) else None)
+                    hit = cn in leaking
+                if hit:
+                    leaking.add(fn.name)
+                    changed = True
+                    break
+    MUT = ("append", "extend", "insert", "pop", "remove", "clear", "update", "setdefault", "sort", "reverse")
+    for fn in prog.functions:
+        aliases: Dict[str, ast.AST] = {}
+        fresh: Set[str] = set()
+        for st in A.walk_no_nested(fn.node):
+            if isinstance(st, ast.Assign) and len(st.targets) == 1 and isinstance(st.targets[0], ast.Name):
+                v = st.value
+                cn = None
+                if isinstance(v, ast.Call):
+                    cn = v.func.attr if isinstance(v.func, ast.Attribute) else (v.func.id if isinstance(v.func, ast.Name) else None)
+                if cn in leaking:
+                    aliases.setdefault(st.targets[0].id, v)
+                else:
+                    fresh.add(st.targets[0].id)
+        for nm, src in aliases.items():
+            if nm in fresh:
+                continue  # also bound to something else: which one is mutated is not decided here
+            for n in A.walk_no_nested(fn.node):
+                hit = None
+                if isinstance(n, ast.Call) and isinstance(n.func, ast.Attribute) and n.func.attr in MUT and isinstance(n.func.value, ast.Name) and n.func.value.id == nm:
+                    hit = f".{n.func.attr}()"
+                elif isinstance(n, ast.AugAssign) and isinstance(n.target, ast.Name) and n.target.id == nm:
+                    hit = "augmented assignment"
+                elif isinstance(n, (ast.Assign, ast.Delete)) and any(isinstance(t, ast.Subscript) and isinstance(t.value, ast.Name) and t.value.id == nm for t in n.targets):
+                    hit = "subscript store"
+                if hit:
+                    n_sites += 1
+                    out.append(bad("STORE-13", fn.qualname, "alias: " + A.alpha_key(A.enclosing_stmt(n) or n), ctx.where(fn, n), f"{nm} is the result of {A.unparse(src)[:40]}, which can be a block's own container handed out uncopied ({', '.join(sorted(leaking))} return a payload as it is); it is mutated in place ({hit}): the graph changes as a side effect of reading it (a second code generation emits the statements twice)"))
     for fn_, call_ in _inplace_reduce_sites(prog):
         out.append(bad("STORE-13", fn_.qualname, "in-place reduce: " + A.alpha_key(call_)[:70], ctx.where(fn_, call_), f"'{A.unparse(call_)[:60]}' has no initial value: the first list of the sequence is extended in place - when that list is a block's own statement list (PythonASTBlock.tree) the graph is changed by reading it"))
     out.append(ok("STORE-13", "<module>", "census of in-place payload mutations", "numba_scfg:1", f"{n_sites} in-place mutation(s) of block payload containers in {len(prog.functions)} functions", nontrivial=False))
@@ -1936,5 +1987,46 @@ def store18(ctx) -> List[Ob]:
             out.append(bad("STORE-18", m.qualname, key, where, f"self.{bad_order[1]}() can run before self.{bad_order[0]}(): loops are looked for in a graph that is not closed yet / branches in a graph that still has its loops"))
         else:
             out.append(ok("STORE-18", m.qualname, key, where, "join_returns, then restructure_loop, then restructure_branch"))
+    return out
+
+
+@rule("STORE-19", 1, "insert_block gives a predecessor an arc to the new block that it did not have only when no successors are given (closing an exit): the append is keyed on the `successors` argument, never on the predecessor's own successor list")
+def store19(ctx) -> List[Ob]:
+    out: List[Ob] = []
+    from .ctrl import _guard_conditions
+
+    fn = ctx.prog.cls("SCFG").find_method("insert_block")
+    if fn is None:
+        raise AnalysisError("SCFG.insert_block not found")
+    params = [p.arg for p in fn.params if p.arg != "self"]
+    if len(params) < 3:
+        raise AnalysisError("insert_block: expected (new_name, predecessors, successors, ..)")
+    new_name, _preds, succs = params[0], params[1], params[2]
+    sites = []
+    for c in A.walk_no_nested(fn.node):
+        if isinstance(c, ast.Call) and isinstance(c.func, ast.Attribute) and c.func.attr in ("append", "insert", "extend") and c.args and new_name in A.names_in(c.args[-1]):
+            sites.append(c)
+        elif isinstance(c, ast.AugAssign) and isinstance(c.op, ast.Add) and new_name in A.names_in(c.value):
+            sites.append(c)
+        elif isinstance(c, ast.Assign) and isinstance(c.value, ast.BinOp) and isinstance(c.value.op, ast.Add) and new_name in A.names_in(c.value.right) and isinstance(c.value.right, (ast.Tuple, ast.List)):
+            sites.append(c)
+    key = "arc to the new block added only when no successors are given"
+    if not sites:
+        out.append(unresolved("STORE-19", fn.qualname, key, ctx.where(fn), "no statement that appends the new block's name to a successor list found (closing a block without successors relies on it)"))
+        return out
+    empt_true = {f"len({succs}) == 0", f"len({succs}) < 1", f"{succs} == []"}
+    empt_false = {succs, f"len({succs}) > 0", f"len({succs})", f"len({succs}) != 0", f"len({succs}) >= 1"}
+    for c in sites:
+        st = A.enclosing_stmt(c) or c
+        gs = _guard_conditions(fn.node, st)
+        about_succ = [(t, p) for t, p in gs if t in empt_true and p or t in empt_false and not p]
+        other = [(t, p) for t, p in gs if (t, p) not in about_succ and not t.startswith("isinstance(")]
+        where = ctx.where(fn, c)
+        if about_succ and not other:
+            out.append(ok("STORE-19", fn.qualname, key, where, f"'{A.unparse(st)[:40]}' runs exactly when `{succs}` is empty"))
+        elif not about_succ:
+            out.append(bad("STORE-19", fn.qualname, key, where, f"'{A.unparse(st)[:40]}' runs under {[t if p else 'not ' + t for t, p in gs] or 'no condition'}, not under `{succs}` being empty: a predecessor that has no arc into the given successors (a return block among the tails; a latch whose only arc is a declared back edge) gains an arc to the inserted block, and closing the graph skips an exit that still has raw targets"))
+        else:
+            out.append(bad("STORE-19", fn.qualname, key, where, f"'{A.unparse(st)[:40]}' additionally depends on {[t if p else 'not ' + t for t, p in other]}: with no successors given, a predecessor for which that fails is not connected to the new block"))
     return out
 
